@@ -554,9 +554,9 @@ func checkBlock(c *checkCtx) {
 		if res.viol != "" {
 			c.violation(name, map[string]interface{}{"case": cs, "error": res.err, "returned_after": res.returnedIn.String()}, "%s", res.viol)
 			nViol++
-			if nViol >= 3 {
-				// the verdict is settled; a call that never returns usually leaves the event loop wedged, and every further case
-				// would only cost its bounds
+			if nViol >= 3 || !fenceOnce(5*time.Second) {
+				// the verdict is settled; a call that never returns usually leaves the event loop wedged (the fence no longer
+				// comes back), and every further case would only cost its bounds
 				c.setExtra("stopped_early", fmt.Sprintf("after %d violating cases (%d of %d cases run)", nViol, i+1, len(cases)))
 				return
 			}
